@@ -110,6 +110,15 @@ class Gen:
                 args = [self.tick(self.int_(env, d - 1)) for _ in range(ar + extra)]
                 return "((lambda %s %s) %s)" % (formals, self.body(body_env, d - 1), " ".join(args))
             args = [self.tick(self.int_(env, d - 1)) for _ in range(ar)]
+            visible = [nm for nm in vs if nm not in RESERVED]
+            if ar >= 2 and visible and r.random() < 0.4:
+                # a parameter NAMED LIKE a visible variable, and a later operand that mentions that variable: operands are
+                # evaluated in the environment of the call, where the name still means the outer variable
+                sh = r.choice(visible)
+                ps[0] = sh
+                args[1] = "(+ %s %s)" % (sh, args[1])
+                body_env = env + [(p, "int") for p in ps]
+                self.note("shadowing-parameter")
             body = self.body(body_env, d - 1)
             if self.spelling.get("params") == "rest":
                 # the same procedure taking all its arguments as a rest list and unpacking it
